@@ -32,6 +32,7 @@ class World:
         self.sent_opens = []     # channel ids in the order OPEN was sent (= arrives)
         self.wbytes = {x: {c: 0 for c in self.chans} for x in 'cs'}
         self.rxbytes = {x: {c: 0 for c in self.chans} for x in 'cs'}
+        self.eof_written = set() # (side, ch) on which write_eof() was called while open
         self.rough = set()       # (side, ch) aborted; 'conn' if the connection was closed / cut by anyone
         w = self
 
@@ -107,6 +108,8 @@ class World:
                     **({'window': self.win} if self.win else {})))
             p.call(start)
         elif k == 'weof':
+            if self.chan[lbl[1]][lbl[2]]._send_state == 'open':
+                self.eof_written.add((lbl[1], lbl[2]))
             self._api(self.chan[lbl[1]][lbl[2]].write_eof)
         elif k == 'wdata':
             if self.chan[lbl[1]][lbl[2]]._send_state == 'open':
@@ -320,6 +323,19 @@ class World:
                                 f'the peer is reading (send state '
                                 f'{mine._send_state}, {mine._send_buf_len} '
                                 f'bytes unsent, window {mine._send_window})')
+                        # ... and the end of file its peer signalled behind it
+                        if consuming and (x, c) in self.eof_written and \
+                                (x, c) not in self.closed_by_app and \
+                                (y, c) not in self.rough and \
+                                (x, c) not in self.rough and \
+                                mine._send_state == 'eof' and \
+                                'eof_received' not in self.log[y][c]:
+                            bad.append(
+                                f'EofDelivered: session {y}{c} is reading and '
+                                f'nothing is in flight, its peer signalled '
+                                f'end of file, but eof_received() was never '
+                                f'called (receive state {peer._recv_state}): '
+                                f'{self.log[y][c]}')
                         # as long as the receiver keeps reading every byte
                         # written is delivered (C07 / C08)
                         if consuming and (x, c) not in self.closed_by_app \
